@@ -15,8 +15,8 @@ package main
 import (
 	"bytes"
 	"context"
-	stdjson "encoding/json"
 	"encoding/hex"
+	stdjson "encoding/json"
 	"flag"
 	"fmt"
 	"math"
